@@ -1,5 +1,6 @@
 import Model.ValueSpec
 import Model.MarshalInterp
+import Model.MarshalRepresent
 import Driver.Util
 namespace Driver.C12
 open Util
@@ -387,8 +388,8 @@ def specAnswer (p : Nat) (t : CqlTy) (g : GoVal) : String :=
 def specDecAnswer (p : Nat) (t : CqlTy) (b : Bytes) (ty : GoTy) : String :=
   match ValueSpec.specDec p t b with
   | none => "nonconformant"
-  | some v => (match represent t ty v with
-      | .ok g => "ok " ++ showVal (normBytes g)
+  | some v => (match representAny t ty v with
+      | .ok g => "ok " ++ showVal (normDeep g)
       | .err => "err"
       | _ => "unmodelled")
 
